@@ -32,8 +32,10 @@ var ucEnts = map[string][]uint{"e1": {1}, "e2": {2}, "e11": {1, 1}}
 var ucActors = map[string]model.UseCaseActorType{"a1": model.UseCaseActorTypeCEM, "a2": model.UseCaseActorTypeEVSE}
 var ucNames = map[string]model.UseCaseNameType{"u1": model.UseCaseNameTypeLimitationOfPowerConsumption, "u2": model.UseCaseNameTypeEVSECommissioningAndConfiguration}
 
-func newUCWorld() *ucWorld {
-	u := &ucWorld{w: world.New(false), ents: map[string]api.EntityLocalInterface{}, m: map[string]ucVal{}, gone: map[string]bool{}}
+func newUCWorld() *ucWorld { return newUCWorldEv(false) }
+
+func newUCWorldEv(events bool) *ucWorld {
+	u := &ucWorld{w: world.New(events), ents: map[string]api.EntityLocalInterface{}, m: map[string]ucVal{}, gone: map[string]bool{}}
 	for _, k := range []string{"e1", "e2", "e11"} {
 		u.ents[k] = u.w.AddLocalEntity(ucEnts[k], model.EntityTypeTypeCEM, 0)
 	}
